@@ -86,6 +86,13 @@ Theorem C14_never_fails_on_empty_or_vanished : forall ydmd st en reverse D,
 Proof. exact never_fails. Qed.
 Print Assumptions C14_never_fails_on_empty_or_vanished.
 
+(* ... and for the whole tree walk (Gone = a directory that vanished, Dir [] = an empty one): the
+   repaired code raises nothing but the ValueError of an impossible calendar date in a name *)
+Theorem C14_walk_never_fails : forall o t,
+  snd (walk fixed o t) = None \/ snd (walk fixed o t) = Some ValueErrorE.
+Proof. exact walk_never_fails. Qed.
+Print Assumptions C14_walk_never_fails.
+
 (* whatever the variant and the direction, only matched files of the channel's own timestamped
    subdirectories are ever yielded *)
 Theorem C14_channel_sound_any_variant : forall v ydmd st en reverse D x,
